@@ -23,8 +23,8 @@ ASSUMPTIONS = [
     'a valid witness exists that differs from the named set only in records ending upstream '
     'of the peptide',
 ]
-BUDGET = {'quick': 170, 'thorough': 2500}
-FAMILIES = ['small', 'small', 'small', 'multi', 'as', 'fusion', 'circ']
+BUDGET = {'quick': 500, 'thorough': 4000}
+FAMILIES = ['small', 'small', 'small', 'multi', 'as', 'fusion', 'circ', 'fuscirc']
 
 
 @st.composite
@@ -53,7 +53,7 @@ def prop(case, ctx):
         res = cveval.run_tool(case, ctx)
     except Exception as e:     # pylint: disable=broad-except
         bucket = cveval.crash_bucket(e)
-        if case['family'] == 'fusion' and 'expand_alignments' in bucket:
+        if any(r['kind'] == 'fusion' for r in case['records']) and 'expand_alignments' in bucket:
             out.known.append('C01-fusion-expand-alignments-crash')
             return out
         if dom:
